@@ -359,6 +359,23 @@ def _boundary_counts_case(case, tier, seed):
         elif len(res['violations']) < 5:
             res['violations'].append(dict(case=case.name, claim='boundary_count_roundtrip', values={'count': repr(c)}, observed=[s, obs],
                                           how='concrete count at a notation threshold'))
+    # formulas whose printing or re-parsing takes a special route: a counted group holding a single atom, a lone ion or
+    # isotope of an element without tabulated density (parsed with an explicit density), single isotopes
+    for text in ('2Fe', '3H2', '2Cl{-}2', '(Fe2)3O', '(3Fe)2', 'Ra{2+}@5', 'Rn[222]@0.01', 'At{-}@1', 'Fr{+}Cl{-}', 'Fe[56]', '(O[17])2', '2D{+}'):
+        res['claims'] += 1
+        try:
+            f = formulas.formula(text)
+            s = str(f)
+            g = formulas.formula(s)
+            ok = dict(g.atoms) == dict(f.atoms) and str(g) == s and repr(f) == "formula('%s')" % s
+            obs = '%r -> %r -> %r' % (text, s, dict(g.atoms))
+        except Exception as e:   # noqa: BLE001
+            ok, obs = False, '%r: %s: %s' % (text, type(e).__name__, e)
+        if ok:
+            res['discharged'] += 1
+        elif len(res['violations']) < 5:
+            res['violations'].append(dict(case=case.name, claim='special_route_roundtrip', values={'formula': text}, observed=[obs, 'same atoms after printing and parsing'],
+                                          how='concrete'))
     res['queries'] = res['distinct'] = res['claims']
     res['samples'] = [dict(counts=len(counts))]
     return res
